@@ -252,6 +252,12 @@ def run_shard(shard_prop, bins, workdir, tier):
                 else:
                     tnx = 'o1;' + 'k61;o1;' * (k - 1) + 'k61;z'
                 inputs.append((t, tnx, 'valid-deep-%d' % k))
+        # breadth must not count as depth: more sibling containers than the nesting limit allows levels
+        for n in (lim + 1, 2 * lim + 7):
+            for elem, etn in ((b'[]', 'a0;'), (b'{}', 'o0;'), (b'[[]]', 'a1;a0;'), (b'{"a":[]}', 'o1;k61;a0;'), (b'{"a":{}}', 'o1;k61;o0;'), (b'[1]', 'a1;n3ff0000000000000,1;'), (b'[{}]', 'a1;o0;')):
+                inputs.append((b'[' + b','.join([elem] * n) + b']', 'a%d;' % n + etn * n, 'valid-wide-%d' % n))
+                inputs.append((b'{"w":[' + b' , '.join([elem] * n) + b'],"tail":' + elem + b'}', 'o2;k77;a%d;' % n + etn * n + 'k7461696c;' + etn, 'valid-wide-%d' % n))
+            inputs.append((b'{' + b','.join(b'"k%d":[]' % i for i in range(n)) + b'}', 'o%d;' % n + ''.join('k%s;a0;' % (b'k%d' % i).hex() for i in range(n)), 'valid-wide-%d' % n))
     elif kind == 'invalid':
         C = invalid_classes(rng)
         names = sorted(C)
